@@ -137,6 +137,20 @@ func (b *builder) fill(v reflect.Value, depth int, nonEmpty bool) {
 		if b.opts.ExportedEnumsOnly {
 			consts = b.u.EnumExported[t]
 		}
+		if nonEmpty {
+			// omitempty field: only constants that are not the zero value keep the key present
+			var nz []reflect.Value
+			for _, c := range consts {
+				if !c.IsZero() {
+					nz = append(nz, c)
+				}
+			}
+			if len(nz) == 0 {
+				b.gaveUp = true // cannot build a non-empty value: the caller drops this case
+				return
+			}
+			consts = nz
+		}
 		if len(consts) > 0 {
 			v.Set(consts[b.r.Intn(len(consts))])
 			return
